@@ -28,7 +28,7 @@ ASSUMPTIONS = [
 ]
 COMPONENTS = {"real": ["TradingEnvXY (data preparation, _make_timesteps, _make_transmitter)", "State", "Transmitter", "TradingEnv", "sklearn transformers", "pandas_market_calendars"],
               "harness": ["table generator with data faults"], "stub": []}
-PROBE_FLOORS = {"holiday_inside_range": 30, "x_nan_cells": 40, "x_missing_rows": 30, "window_gt_1": 100, "stride_used": 40,
+PROBE_FLOORS = {"long_window_mid_data_start": 8, "holiday_inside_range": 30, "x_nan_cells": 40, "x_missing_rows": 30, "window_gt_1": 100, "stride_used": 40,
                 "y_nan_cells": 15, "rate_given": 60, "folds_used": 20, "x_starts_late": 30}
 HOL = {}
 
@@ -40,9 +40,9 @@ def holidays(name):
 
 
 def generate(rng, i):
-    tb = xy.gen_tables(rng)
+    window = rng.choice([1, 1, 2, 3, 5, 10, rng.randint(11, 30), rng.randint(11, 30)])
+    tb = xy.gen_tables(rng, {"n_min": 90, "n_max": 160} if window > 10 else None)
     n = len(tb["dates"])
-    window = rng.choice([1, 1, 2, 3, 5, 10, rng.randint(11, 30)])
     stride = rng.choice([None, None, 1, 2, 3, 5]) if window > 1 else None
     kw = {
         "window": window, "stride": stride, "spread": rng.choice([0, 0.0002, 0.01, 0.02]),
@@ -57,10 +57,10 @@ def generate(rng, i):
     if rng.random() < 0.2:
         kw["transformer_end"] = tb["dates"][rng.randint(n // 3, n - 1)]
     fold = None
-    if rng.random() < 0.2:
+    if rng.random() < (0.6 if window > 10 else 0.2):
         k = rng.randint(n // 3, 2 * n // 3)
         kw["folds"] = {"train": [tb["dates"][0], tb["dates"][k]], "test": [tb["dates"][min(k + 1, n - 1)], tb["dates"][-1]]}
-        fold = rng.choice(["train", "test"])
+        fold = rng.choice(["train", "test", "test"])      # 'test' starts mid-data: the window must be warmed up from history
     ny = len(tb["ycols"])
     acts = [[round(rng.uniform(-0.3, 0.5), 4) for _ in range(ny)] for _ in range(7)]
     return {"kind": "xy", "tables": tb, "kwargs": kw, "fold": fold, "actions": acts, "np_seed": rng.randrange(2 ** 31)}
@@ -167,6 +167,8 @@ def execute(scenario):
         probe("rate_given")
     if kw.get("folds"):
         probe("folds_used")
+    if window > 10 and (scenario.get("fold") == "test" or kw.get("start")) and stats["steps"] >= 2:
+        probe("long_window_mid_data_start")
     trace = "{}|w{}|s{}|{}|{}|sp{}|f{}|{}{}|c{}".format(",".join(sorted(tb["faults"])), window, stride, kw.get("transformer"), kw.get("calendar"),
                                                        kw.get("spread"), scenario.get("fold"), int("start" in kw), int("end" in kw), kw.get("clip"))
     faults = {f: 1 for f in tb["faults"]}
